@@ -280,8 +280,11 @@ class Ctx:
             "coverage": cov, "assumptions": self.assume, "wall_s": round(time.time() - self.t0, 2),
             "violations": nviol,
         }
-        os.makedirs(os.path.join(VERIF, "evidence"), exist_ok=True)
-        with open(os.path.join(VERIF, "evidence", f"{self.pid}.json"), "w") as f:
+        # evidence describes /repo; drills against a scratch tree (LV_REPO) write elsewhere
+        evdir = os.environ.get("LV_EVIDENCE_DIR") or (
+            os.path.join(VERIF, "evidence") if os.path.realpath(REPO) == "/repo" else os.path.join(VERIF, ".work", "evidence_scratch"))
+        os.makedirs(evdir, exist_ok=True)
+        with open(os.path.join(evdir, f"{self.pid}.json"), "w") as f:
             json.dump(ev, f, indent=1, default=str)
 
 
